@@ -438,6 +438,7 @@ func corpusGen(w *gal.Writer) {
 	genCase(w, base([]apkT{{"foo-1", "2-r0", sum(3)}, {"foo", "1-2-r0", sum(4)}}, nil), "corpus/id-collision", "name-version boundary is ambiguous")
 	genCase(w, base([]apkT{{"libstdc++", "13.2-r0", sum(3)}, {"libstdcC43C43", "13.2-r0", sum(4)}, {"zlib", "1.3-r0", sum(5)}}, nil), "corpus/id-collision", "")
 	genCase(w, base([]apkT{musl, musl}, nil), "corpus/same-apk-twice", "identical entries collapse to one element")
+	genCase(w, base([]apkT{{"foo", "1.0-r0", sum(1)}, {"foo", "2.0-r0", sum(2)}, {"foo-doc", "2.0-r0", sum(3)}}, nil), "corpus/same-name-two-versions", "")
 	genCase(w, base([]apkT{{"py3.11-foo_bar", "1.0~rc1-r0", sum(1)}, {"café", "1", sum(2)}, {"", "", nil}, {strings.Repeat("long-name+", 40), "1.0", sum(9)}}, nil), "corpus/odd-names", "")
 	// embedded SBOMs
 	foo := apkT{"foo", "1.0-r0", sum(6)}
